@@ -252,7 +252,9 @@ def record_sizes(repo: Repo, rep, P: str, rule: str, tables):
             continue
         n += 1
         i, s = byname[cname]
-        if woff[i] == row[0][0]:
+        if woff[i] is None:
+            rep.inconclusive(f"{P}.{rule}", wcon, f"`{cname}`", "offset not derived (an earlier field's width is not a single value)", f"{rel}:{s.node.lineno}")
+        elif woff[i] == row[0][0]:
             rep.ok(f"{P}.{rule}", wcon, f"`{cname}` at {woff[i]:#x}", f"= documented offset of '{text}'")
         else:
             rep.violation(f"{P}.{rule}", wcon, f"`{cname}` at {woff[i] if woff[i] is None else hex(woff[i])}",
@@ -280,6 +282,9 @@ def record_sizes(repo: Repo, rep, P: str, rule: str, tables):
     a, b = _total(sw), _total(sr)
     if a is not None and a == b:
         rep.ok(f"{P}.{rule}", f"{rel}:Sampler.sample_chunks", f"sample record: writer {a} = reader {b} bytes")
+    elif a is None or b is None:
+        rep.inconclusive(f"{P}.{rule}", f"{rel}:Sampler.sample_chunks", f"writer {a} / reader {b}", "sample record size not derived on one side",
+                         f"{rel}:{swfn.lineno}")
     else:
         rep.violation(f"{P}.{rule}", f"{rel}:Sampler.sample_chunks", f"writer {a} / reader {b}",
                       "sample configuration record has different sizes on the two sides", f"{rel}:{swfn.lineno}")
@@ -318,7 +323,10 @@ def sample_record(repo: Repo, rep, P: str, tables):
         name = (w.comment or r.comment or ("", f"slot{i}", 0, None))[1]
         text = f"slot {i} `{name}`: writer {w.method}({w.expr}) / reader {r.expr} = {r.method}()"
         ok = True
-        if w.width != r.width or w.width is None:
+        if w.width is None or r.width is None:
+            ok = False
+            rep.inconclusive(f"{P}.R2", wcon, text, f"width of `{name}` not derived on one side (writer {w.width}, reader {r.width})", f"{rel}:{w.node.lineno}")
+        elif w.width != r.width:
             ok = False
             rep.violation(f"{P}.R2", wcon, text, f"`{name}` written as {w.width} byte(s), read as {r.width}", f"{rel}:{w.node.lineno}")
         if w.kind == "int" and r.kind == "int" and w.signed != r.signed:
@@ -1121,6 +1129,9 @@ def chunk_dispatch(repo: Repo, rep, P: str):
             rep.inconclusive(f"{P}.R3", lcon, attr, "chunk number of the envelope class not constant", f"{rel}:{lc.lineno}")
             continue
         tgt, _ = chnm_mod.reader_target(repo, samp, k)
+        if tgt.startswith("?"):
+            rep.inconclusive(f"{P}.R3", lcon, f"{attr} written as chunk {k:#x}", "reader dispatch not followed: " + tgt[1:], f"{rel}:{lc.lineno}")
+            continue
         if tgt == attr[len("self."):]:
             n_ok += 1
             rep.ok(f"{P}.R3", lcon, f"chnm == {k:#x} → {attr}.load_chdt", "same attribute as written")
@@ -1147,9 +1158,17 @@ def chunk_dispatch(repo: Repo, rep, P: str):
             tgt, _ = chnm_mod.reader_target(repo, samp, k)
             if tgt != f"effect_control_envelopes[{idx}]":
                 bad.append((idx, k, tgt))
+        # what the writer yields must be visible: an unread `yield from <something else>` may hold the envelopes
+        opaque = [n for n in walk_no_nested(wf) if isinstance(n, ast.YieldFrom) and not (
+            isinstance(n.value, ast.Call) and isinstance(n.value.func, ast.Attribute) and (norm(n.value.func.value).startswith("self.") or
+                                                                                           norm(n.value.func.value).startswith("super(") or
+                                                                                           norm(n.value.func.value) in ("self", "chunk")))]
         if not bad and len(yielded) == len(ctor):
             n_ok += len(ctor)
             rep.ok(f"{P}.R3", lcon, f"effect_control_envelopes[i] for {[hex(c) for c in ctor]}", "effect-control envelopes dispatch by index")
+        elif any(t.startswith("?") for _, _, t in bad) or (not bad and opaque):
+            rep.inconclusive(f"{P}.R3", lcon, f"constructed {[hex(c) for c in ctor]}, yielded {len(yielded)}, {bad[:2]}",
+                             "writer or reader dispatch of the effect-control envelopes not followed", f"{rel}:{lc.lineno}")
         else:
             rep.violation(f"{P}.R3", lcon, f"constructed {[hex(c) for c in ctor]}, yielded {len(yielded)}, mismatches {bad[:2]}",
                           "effect-control envelope chunk numbers do not map back to the list positions they were written from", f"{rel}:{lc.lineno}")
@@ -1165,6 +1184,8 @@ def chunk_dispatch(repo: Repo, rep, P: str):
         tgt, _ = chnm_mod.reader_target(repo, samp, k)
         if tgt == want:
             rep.ok(f"{P}.R3", lcon, f"chnm == {k:#x} → {want}", what, nontrivial=False)
+        elif tgt.startswith("?"):
+            rep.inconclusive(f"{P}.R3", lcon, f"chnm == {k:#x}", "reader dispatch not followed: " + tgt[1:], f"{rel}:{lc.lineno}")
         else:
             rep.violation(f"{P}.R3", lcon, f"chnm == {k:#x} → `{tgt or 'nothing'}`", f"{what} chunk is no longer dispatched", f"{rel}:{lc.lineno}")
     # effect: written as CHNM 0x10a with Synth bytes, loaded through read_sunvox_file
@@ -1172,8 +1193,17 @@ def chunk_dispatch(repo: Repo, rep, P: str):
     reads = [n for mname, mfn in samp.methods.items() if mname != "__init__" for n in ast.walk(mfn)
              if isinstance(n, ast.Assign) and norm(n.targets[0]) == "self.effect" and isinstance(n.value, ast.Call)
              and norm(n.value.func) == "read_sunvox_file"]
-    writes = [n for n in ast.walk(wf) if isinstance(n, ast.Call) and norm(n.func) == "self.effect.write_to"]
-    if writes and reads:
+    writes = [n for n in ast.walk(wf) if isinstance(n, ast.Call) and norm(n.func) in ("self.effect.write_to", "self.effect.read")]
+    if not writes:
+        # the effect may be written by a helper the normal form did not reach (a callee picked at run time)
+        writes = [n for mname, mfn in samp.methods.items() for n in ast.walk(mfn) if isinstance(n, ast.Call) and norm(n.func) in ("self.effect.write_to", "self.effect.read")]
+        if writes and reads:
+            rep.inconclusive(f"{P}.R3", f"{rel}:Sampler.specialized_iff_chunks", "effect chunk",
+                             "the effect is serialised in a helper that the writer reaches through a computed callee", rel)
+            writes = reads = None
+    if writes is None:
+        pass
+    elif writes and reads:
         rep.ok(f"{P}.R3", f"{rel}:Sampler.specialized_iff_chunks", "effect: write_to bytes ↔ read_sunvox_file", "embedded effect round-trips as a synth")
     else:
         rep.violation(f"{P}.R3", f"{rel}:Sampler.specialized_iff_chunks", "effect chunk", "embedded effect is not written as chunk 0x10a / not loaded through read_sunvox_file",
@@ -1287,15 +1317,18 @@ def sampler_chunk_numbers(repo: Repo, rep, P: str):
     w = chnm.WriterNumbers(repo, samp)
     nums = w.run()
     for msg, node in w.problems:
-        rep.violation(f"{P}.R3", f"{rel}:Sampler.specialized_iff_chunks", msg,
-                      "the set of chunk numbers the Sampler writes is no longer derivable from the slot indices (numbering does not follow "
-                      "self.samples / the envelope objects)", f"{rel}:{getattr(node, 'lineno', 0)}")
+        rep.inconclusive(f"{P}.R3", f"{rel}:Sampler.specialized_iff_chunks", msg,
+                         "the set of chunk numbers the Sampler writes was not derived from the slot indices (writer construct not modelled)",
+                         f"{rel}:{getattr(node, 'lineno', 0)}")
     n = 0
     for x in nums:
         for k in sorted({x.lo, x.hi, min(x.hi, x.lo + x.step)}):
             n += 1
             tgt, _ = chnm.reader_target(repo, samp, k)
-            if tgt != x.field:
+            if tgt.startswith("?") or (tgt != x.field and not re.fullmatch(r"\w+(\[\w+\])?", x.field)):
+                rep.inconclusive(f"{P}.R3", f"{rel}:Sampler.load_chunk", f"chunk {k:#x}: written from `{x.field}`, loaded into `{tgt}`",
+                                 "reader dispatch / written attribute not recognised", rel)
+            elif tgt != x.field:
                 rep.violation(f"{P}.R3", f"{rel}:Sampler.load_chunk", f"chunk {k:#x}: written from `{x.field}`, loaded into `{tgt or 'nothing'}`",
                               "a Sampler chunk is not loaded back into the field it was written from", rel)
             else:
